@@ -602,10 +602,24 @@ def gen_align(rng):
     regs[13] = D + mis if rn == 13 else D
     mpu = [(0, 0, 0)] * 12
     mpu[0] = (1 | 31 << 1, 0, 3 << 8)
+    m_bit = rng.getrandbits(1)
+    also_denied = bool(m_bit) and rng.random() < 0.4
+    if kind == 'push_w' and not a_bit:
+        also_denied = False          # known finding (PUSH.W T2 goes byte-wise when SCTLR.A=0): keep its one signature, do not stack a denial on top
+    if also_denied:
+        # the misaligned address is ALSO denied by the MPU (no access / read-only / no region at all): the alignment fault has priority and is
+        # reported with the unrounded address
+        dk = rng.choice(['none', 'readonly', 'background'])
+        if dk == 'background':
+            mpu[0] = (1 | 16 << 1, 0, 3 << 8)                        # 128 KiB from 0: LOW + CODE
+            mpu[7] = (1 | 11 << 1, G.STACKS, 3 << 8)
+            mpu[8] = (1 | 7 << 1, G.INTC, 3 << 8)
+        else:
+            mpu[DREG] = (1 | 9 << 1, G.DATA + 0x400 - 0x200 if False else (G.DATA + 0x400) & ~0x3FF, (0 if dk == 'none' else 6) << 8)
     core, meta = _one_shot_case(rng, word, thumb, mode, te, regs, mpu, {}, arch=rng.choice([6, 7]))   # ARMv6 with U=1: unaligned MemA accesses fault like on ARMv7
-    core['regs']['sys']['sctlr'] = G.sctlr_value(m=rng.getrandbits(1), a=a_bit, u=1, te=te, v=0, br=1, ee=(core['regs']['sys']['sctlr'] >> 25) & 1)
+    core['regs']['sys']['sctlr'] = G.sctlr_value(m=m_bit, a=a_bit, u=1, te=te, v=0, br=0 if also_denied else 1, ee=(core['regs']['sys']['sctlr'] >> 25) & 1)
     return {'scenario': 'align', 'cores': [core], 'meta': meta, 'word': word, 'kind': kind, 'first': first, 'size': size, 'rn': rn, 'wb': wb, 'write': kind in ('str', 'strh', 'strd', 'stm', 'push', 'push_w'),
-            'events': [], 'max_ticks': 200}
+            'events': [], 'max_ticks': 200, 'also_denied': also_denied}
 
 
 def run_align(case):
@@ -624,7 +638,7 @@ def run_align(case):
         else:
             a = tap.abort_state
             rec = tap.abort_rec
-            cover.add('align|%s|%s|%s' % (site, 'w' if case['write'] else 'r', meta['mode']))
+            cover.add('align|%s|%s|%s|%d' % (site, 'w' if case['write'] else 'r', meta['mode'], int(bool(case.get('also_denied')))))
             preR, postR = dict(zip(M.RNAMES, rec['pre'][0])), dict(zip(M.RNAMES, rec['post'][0]))
             from sim.models.banking import phys
             chg = [n for n in M.RNAMES if n not in ('PC', 'LRabt') and postR[n] != preR[n]]
@@ -639,7 +653,7 @@ def run_align(case):
             elif chg:
                 viol.append({'oracle': 'mpu.align', 'site': site, 'cls': 'base_register_written_back' if phys(case['rn'], mode) in chg else 'register_changed_by_aborted_access',
                              'tick': 0, 'detail': '%s: %s changed although the access faulted' % (cls, chg)})
-            elif not b.cores[0].finished and case['kind'] in ('ldr', 'str', 'ldrh', 'strh'):
+            elif not b.cores[0].finished and case['kind'] in ('ldr', 'str', 'ldrh', 'strh') and not case.get('also_denied'):
                 viol.append({'oracle': 'mpu.retry', 'site': site, 'cls': 'not_finished_after_grant', 'tick': 0, 'detail': 'alignment fault: program did not finish after the handler cleared SCTLR.A'})
     b.stats['fault.align'] = 1
     return {'violations': viol, 'cover': cover, 'stats': b.stats, 'ticks': b.tick, 'digest': b.digest()}
